@@ -599,7 +599,11 @@ func (c *compiler) compile(tok *token) []instruction {
 			if len(args) > 0 && args[len(args)-1].Symbol == "..." {
 				ellipsis = 1
 			}
-			res = append(res, instruction{Code: code, A: reg(len(args)), B: reg(ellipsis)})
+			wanted := reg(0)
+			if code == codeCopy { // copy's result (the number of elements copied) is pushed only where it is used
+				wanted = reg(tok.Tokens[callReturns].Int())
+			}
+			res = append(res, instruction{Code: code, A: reg(len(args)), B: reg(ellipsis), C: wanted})
 		} else {
 			fnc := c.compile(tok.Tokens[callName])
 			if tok.Tokens[callName].Symbol == "(name)" {
